@@ -12,7 +12,7 @@ from pbt.run import Violation
 
 ID = 'C06'
 LEVEL = 'exploration'
-RULE = ('generated allocation trees (depth 1-4, 1-8 nodes, reservations per '
+RULE = ('60% generated allocation trees (depth 1-4, 1-8 nodes, reservations per '
         'dimension incl. zero and None, ranks/adjustments/caps within the '
         'schema ranges) with 0-16 instances (priorities with many zeros and '
         'ties, zero-demand dimensions, running/pending mix, arrival order = '
@@ -23,7 +23,12 @@ RULE = ('generated allocation trees (depth 1-4, 1-8 nodes, reservations per '
         'order, priority-0 last within a rank, reservation boost and cap '
         'recomputed in exact rationals. Non-trivial = tree depth >=2 with '
         'instances in >=2 allocations of different rank and at least one '
-        'boosted and one non-boosted instance. distinct = canonical JSON.')
+        'boosted and one non-boosted instance. 20% E1 histories with rich '
+        'allocation trees: the queues of real cycles (exactly-once per '
+        'partition, ranks non-decreasing, unplaced rank => on no server). 20% '
+        'E2 histories: priorities/allocations chosen by Loader.find_assignment '
+        '/ load_app vs the declared manifests and assignments, and the queue '
+        'order by declared priority. distinct = canonical JSON.')
 ASSUMPTIONS = [
     'demands and reservations are small integers (exact in float64)',
     'the instance whose demand crosses the reservation boundary may be '
@@ -31,7 +36,9 @@ ASSUMPTIONS = [
     'instances are exempt from the boost/cap predicates',
     'cap comparisons use a relative margin of 1e-9',
 ]
-TRUSTED = ['exact rational recomputation in pbt/props/c06.py']
+TRUSTED = ['exact rational recomputation in pbt/props/c06.py',
+           'pbt/cellsim.py', 'pbt/mastersim.py (reference assignment matcher)',
+           'pbt/fakezk.py']
 BUDGET = {'quick': 16000, 'thorough': 480000}
 
 UNPLACED = sys.maxsize
@@ -70,11 +77,22 @@ CELL_PROFILE = {
 }
 
 
+MASTER_PROFILE = {
+    'weights': {'app': 12, 'prio': 6, 'allocs': 4, 'rm': 2, 'restart': 2,
+                'cycle': 8},
+    'force': ['prio', 'allocs'],
+    'lease': False, 'traits': False,
+    'max_ops': 20,
+}
+
+
 def strategy(tier):
     from pbt import gen
     cell = gen.cell_case(CELL_PROFILE).map(lambda c: dict(c, kind='cell'))
+    master = gen.master_case(MASTER_PROFILE).map(
+        lambda c: dict(c, kind='master'))
     return st.integers(0, 9).flatmap(
-        lambda k: cell if k < 2 else strategy_case())
+        lambda k: cell if k < 2 else (master if k < 4 else strategy_case()))
 
 
 def fixed_cases():
@@ -146,9 +164,77 @@ def execute_cell(case, stats):
     return seen['capped'] and seen['multi']
 
 
+def execute_master(case, stats):
+    """Loader.find_assignment / load_app choose allocation and priority: the
+    queue of every quiescent cycle is checked against the priorities and
+    allocations *declared* in ZooKeeper (reference matcher in mastersim)."""
+    from pbt import mastersim
+    seen = {'zero': False, 'explicit': False, 'multi': False}
+
+    def observe(sim, info):
+        if info.kind not in ('cycle', 'init'):
+            return
+        cell = sim.cell
+        ref = {}
+        for name, app in cell.apps.items():
+            alloc, prio = sim.reference_assignment(name)
+            ref[name] = (alloc, prio)
+            if app.priority != prio:
+                raise Violation(
+                    'c06.loader.priority',
+                    '%s: declared priority %s (manifest %r), the scheduler '
+                    'uses %s' % (name, prio, sim.decl_apps[name].get('prio'),
+                                 app.priority))
+            if app.allocation is None or app.allocation.name != alloc:
+                raise Violation(
+                    'c06.loader.allocation',
+                    '%s: declared allocation %s, the scheduler uses %r' %
+                    (name, alloc,
+                     None if app.allocation is None else app.allocation.name))
+            if sim.decl_apps[name].get('prio') is not None:
+                seen['explicit'] = True
+            if prio == 0:
+                seen['zero'] = True
+        for label, entries in info.queues:
+            zero_seen = {}
+            per_alloc = {}
+            for pos, (name, rank, srv) in enumerate(entries):
+                alloc, prio = ref[name]
+                per_alloc.setdefault(alloc, []).append(
+                    (pos, name, prio, srv))
+                if prio == 0:
+                    zero_seen[rank] = name
+                elif rank in zero_seen:
+                    raise Violation(
+                        'c06.master.prio0',
+                        'priority-0 %s precedes %s (declared priority %s) '
+                        'of the same rank %s in the queue of %s' %
+                        (zero_seen[rank], name, prio, rank, label))
+            if len(per_alloc) >= 2:
+                seen['multi'] = True
+            for alloc, items in per_alloc.items():
+                expect = sorted(items, key=lambda it: (
+                    -it[2], 0 if it[3] else 1,
+                    cell.apps[it[1]].global_order))
+                if [it[1] for it in expect] != [it[1] for it in items]:
+                    raise Violation(
+                        'c06.master.alloc-order',
+                        'allocation %s: expected order %s by declared '
+                        'priority, queue has %s' %
+                        (alloc, [(it[1], it[2]) for it in expect],
+                         [(it[1], it[2]) for it in items]))
+
+    sim = mastersim.MasterSim(case, observers=[observe], stats=stats)
+    sim.run()
+    stats.count('kind:master')
+    return seen['zero'] and seen['explicit'] and seen['multi']
+
+
 def execute(case, stats):
     if case.get('kind') == 'cell':
         return execute_cell(case, stats)
+    if case.get('kind') == 'master':
+        return execute_master(case, stats)
     stats.count('kind:tree')
     scheduler.DIMENSION_COUNT = 3
     clock = vclock.VClock()
